@@ -277,4 +277,71 @@ theorem pop_shape {q q' : Q} {tok : Nat} {c : Chain} {d : Done} (hw : WF q) (hm 
   rw [ht] at hc'
   rw [out_unique hw hm hc']; exact hs
 
+/-! ### capacity -/
+
+/-- `num_used` never exceeds the queue size -/
+def Cap (q : Q) : Prop := q.numUsed ≤ q.size
+
+theorem cap_init (n : Nat) (ind : Bool) : Cap (Q.init n ind) := by simp [Cap, Q.init, Q.numUsed]
+
+theorem numUsed_append (q : Q) (tok : Nat) (c : Chain) :
+    ({ q with out := q.out ++ [(tok, c)] } : Q).numUsed = q.numUsed + cost q.indirect c := by
+  simp [Q.numUsed]
+
+theorem cost_le (ind : Bool) (c : Chain) : cost ind c ≤ c.segs ∧ (ind = true → cost ind c ≤ 1) := by
+  unfold cost
+  by_cases h : 1 < c.segs <;> cases ind <;> simp [h] <;> omega
+
+theorem cap_add {q q' : Q} {tok : Nat} {c : Chain} (hc : Cap q) (h : q.add tok c = .ok q') : Cap q' := by
+  obtain ⟨rfl, _, hf, _, _⟩ := add_ok h
+  simp only [Cap, numUsed_append]
+  simp only [Q.full, Bool.or_eq_false_iff, decide_eq_false_iff_not, Nat.not_lt, Bool.and_eq_false_iff,
+    Bool.not_eq_false] at hf
+  obtain ⟨⟨h1, h2⟩, h3⟩ := hf
+  have hcl := cost_le q.indirect c
+  cases hi : q.indirect with
+  | true => have := hcl.2 hi; simp only [hi] at this ⊢; omega
+  | false =>
+    rcases h3 with h3 | h3
+    · simp [hi] at h3
+    · have := hcl.1; simp only [hi] at this ⊢; omega
+
+theorem cap_complete {q q' : Q} {d : Done} (hc : Cap q) (h : q.complete d = some q') : Cap q' := by
+  obtain ⟨rfl, _⟩ := complete_some h
+  exact hc
+
+theorem sum_filter_le (l : List (Nat × Chain)) (f : Nat × Chain → Nat) (p : Nat × Chain → Bool) :
+    ((l.filter p).map f).sum ≤ (l.map f).sum := by
+  induction l with
+  | nil => simp
+  | cons a l ih =>
+    simp only [List.filter_cons]
+    split <;> simp <;> omega
+
+theorem cap_pop {q q' : Q} {tok : Nat} {d : Done} (hc : Cap q) (h : q.pop tok = .ok (q', d)) : Cap q' := by
+  obtain ⟨_, _, ho, hs, hi⟩ := pop_ok h
+  simp only [Cap, Q.numUsed, ho, hs, hi]
+  exact Nat.le_trans (sum_filter_le _ _ _) hc
+
+/-- readiness: `available_desc() >= 2` holds exactly when a two-buffer chain would not be refused
+    with `QueueFull` -/
+theorem availableDesc_two (q : Q) (hc : Cap q) : decide (2 ≤ q.availableDesc) = !q.full 2 := by
+  unfold Cap at hc
+  unfold Q.availableDesc Q.full
+  cases hi : q.indirect <;> simp only [Bool.false_eq_true, if_false, if_true, Bool.not_true, Bool.not_false,
+    Bool.false_and, Bool.true_and, Bool.or_false]
+  · by_cases h : 2 ≤ q.size - q.numUsed
+    · have : ¬ q.size < q.numUsed + 1 ∧ ¬ q.size < 2 ∧ ¬ q.size < q.numUsed + 2 := by omega
+      simp [h, this]
+    · have : q.size < q.numUsed + 2 := by omega
+      simp [h, this]
+  · by_cases he : q.numUsed = q.size
+    · have : q.size < q.numUsed + 1 := by omega
+      simp [he]
+    · by_cases h2 : 2 ≤ q.size
+      · have : ¬ q.size < q.numUsed + 1 ∧ ¬ q.size < 2 := by omega
+        simp [he, h2, this]
+      · have : q.size < 2 := by omega
+        simp [he, h2, this]
+
 end VirtioVerif.AbsQueue
